@@ -225,6 +225,17 @@ class LibMap:
             return False
         return t.kind == "named" and t.last == "reverse_iterator" and bool(t.args)
 
+    def range_args(self, em, a, b, want=None):
+        """iterator pair [a, b) over a modelled sequence: (is_reverse, C expr of a, C expr of b) or None; reverse
+        iterators are their base() pointers (the _rev models read downwards from the first base pointer)"""
+        ca, cb = self.mapped(em, a), self.mapped(em, b)
+        if ca is None or ca != cb or not ca.endswith("*") or (want and "?" not in want and ca != want):
+            return None
+        ra, rb = self.is_rev_iter(em, a), self.is_rev_iter(em, b)
+        if ra != rb:
+            return None
+        return ra, em.E(a), em.E(b)
+
     def member_call(self, em, n, me, base, name, args):
         if name == "base" and not args and self.is_rev_iter(em, base):
             return em.E(base)
@@ -420,6 +431,11 @@ class LibMap:
             return "%serase_range(%s, %s, %s)" % (f, p, em.E(args[0]), em.E(args[1]))
         if name == "insert" and len(args) == 2:
             return "%sinsert(%s, %s, %s)" % (f, p, em.E(args[0]), em.E(args[1]))
+        if name == "insert" and len(args) == 3:  # insert(pos, first, last) from another modelled sequence
+            r = self.range_args(em, args[1], args[2], "%s*" % em.tm.seq_insts.get(tag, "?"))
+            if r is None:
+                return None
+            return "%sinsert_range%s(%s, %s, %s, %s)" % (f, "_rev" if r[0] else "", p, em.E(args[0]), r[1], r[2])
         if name == "resize":
             if len(args) == 1:
                 return "%sresize(%s, %s)" % (f, p, em.E(args[0]))
@@ -494,6 +510,10 @@ class LibMap:
             return "%s%s(%s, %s)" % (f, nm, p, em.E(args[0]))
         if name in ("end", "begin", "cend", "cbegin"):
             return "%s%s(%s)" % (f, name.lstrip("c"), p)
+        if name == "insert" and len(args) == 2:  # insert(first, last) from a modelled sequence
+            r = self.range_args(em, args[0], args[1], "%s*" % em.tm.set_insts.get(tag, "?"))
+            if r is not None and not r[0]:
+                return "%sinsert_range(%s, %s, %s)" % (f, p, r[1], r[2])
         return None
 
     # ------------------------------------------------------------------ free functions
@@ -564,6 +584,22 @@ class LibMap:
                 cn = "vf_new_" + em.tm.tag(ct[:-1])
                 em.lifted_new.add((cn, ct[:-1]))
                 return "%s(%s)" % (cn, em.E(args[0]))
+        if name in ("move", "copy") and len(args) == 3:
+            # std::move/std::copy(first, last, std::back_inserter(seq)): append the range to the modelled sequence
+            core = skip(args[2])
+            while core.get("kind") in ("CXXConstructExpr", "MaterializeTemporaryExpr") and len(core.get("inner", [])) == 1:
+                core = skip(core["inner"][0])
+            callee = skip(core["inner"][0]) if core.get("kind") == "CallExpr" and core.get("inner") else {}
+            if callee.get("kind") == "DeclRefExpr" and callee.get("referencedDecl", {}).get("name") == "back_inserter":
+                dst = core["inner"][1]
+                dct = self.mapped(em, dst)
+                if dct and dct.startswith("struct vf_seq_"):
+                    tag = dct[len("struct vf_seq_"):]
+                    r = self.range_args(em, args[0], args[1], "%s*" % em.tm.seq_insts.get(tag, "?"))
+                    if r is not None:
+                        d = em.addr_of(dst)
+                        return "vf_seq_%s_insert_range%s(%s, vf_seq_%s_end(%s), %s, %s)" % (
+                            tag, "_rev" if r[0] else "", d, tag, d, r[1], r[2])
         if name in ("find", "count", "remove") and len(args) == 3:
             ct = self.mapped(em, args[0])
             if ct and ct.endswith("*"):
